@@ -55,7 +55,7 @@ def stepLine (dom : String) (st : DState) (full : String) : DState × String :=
       -- each property judges only the operations it is about (the model is compared on all of them)
       let op := (fields.headD "")
       let keep := match dom with
-        | "idx11" => ["create", "update", "delete", "value", "exists", "createbad", "txn", "excl", "hist", "dclose", "initrace"].contains op
+        | "idx11" => ["create", "update", "delete", "value", "exists", "createbad", "txn", "excl", "hist", "dclose", "initrace", "untyped"].contains op
         | "idx12" => ["init", "initrace", "rebuild", "query", "collide"].contains op
         | "idx13" => ["query"].contains op
         | "idx14" => ["flush"].contains op
